@@ -1,6 +1,6 @@
 #!/bin/bash
 # usage: tools/seedtest.sh <seed-id> <property> [more properties...]
-#   seed ids of the second / third / fourth round end in "b" / "c" / "d" (C07b): their source directory is /tmp/seed2/C07, /tmp/seed3/C07
+#   seed ids of the second / third / fourth round end in "b" / "c" / "d" / "e" (C07b): their source directory is /tmp/seed2/C07, /tmp/seed3/C07
 # Takes /verif/seeded/<id>/patch.diff (or /tmp/seed/<id>/, copied on first use), applies it to a fresh
 # scratch worktree of /repo's HEAD, confirms that the existing tests still pass and that the
 # demonstration fails with the change and passes without it, then runs the registered checks against
@@ -10,7 +10,7 @@ ID=$1; shift
 OUT=/verif/seeded/$ID
 mkdir -p $OUT
 SRC=/tmp/seed/$ID
-case $ID in *b) SRC=/tmp/seed2/${ID%b};; *c) SRC=/tmp/seed3/${ID%c};; *d) SRC=/tmp/seed4/${ID%d};; esac
+case $ID in *b) SRC=/tmp/seed2/${ID%b};; *c) SRC=/tmp/seed3/${ID%c};; *d) SRC=/tmp/seed4/${ID%d};; *e) SRC=/tmp/seed5/${ID%e};; esac
 if [ ! -f $OUT/patch.diff ] && [ -d $SRC ]; then cp -r $SRC/* $OUT/; rm -rf $OUT/scratch $OUT/target; fi
 WT=/tmp/wt/run_$ID
 git -C /repo worktree remove --force $WT 2>/dev/null
